@@ -101,7 +101,7 @@ def dedup_taken_names_stay_taken(seen_methods, other, old):
 
 
 # ---- DataclassGenerator.generate, one arbitrary property: the statement of C02 / C03 for the field loop ----------------------------------------
-c = contract(f"{DG}:DataclassGenerator.generate#one-property", props=["C02", "C03", "C20"], region_for_target="(prop_name, prop_schema)", region_body_only=True,
+c = contract(f"{DG}:DataclassGenerator.generate#one-property", props=["C02", "C03", "C20", "C01"], region_for_target="(prop_name, prop_schema)", region_body_only=True,
              types={"prop_name": "str", "prop_schema": "any", "seen_field_names": "dict", "field_mappings": "dict", "fields_data": "list", "other": "str",
                     "schema": "any", "base_name": "any", "context": "any"},
              abstract_unsupported=True, dependency_post={"sanitize_method_name": _is_str}, nothrow_calls=["sanitize_method_name"],
@@ -123,3 +123,16 @@ def wire_key_and_field_name_are_paired(prop_name, field_mappings, seen_field_nam
 @c.ensures(only_exit="end", note="bindings made for earlier properties are not disturbed")
 def earlier_bindings_kept(seen_field_names, other, old):
     return other not in old.seen_field_names or seen_field_names[other] == old.seen_field_names[other]
+
+
+@c.ensures(only_exit="end", props=["C01"], note="C01: the field is never bound to a name that the class body itself uses — the date / time types of later annotations, and "
+                                 "`field`, which later defaults call: a field spelled like one of them would rebind it for the rest of the class body")
+def field_name_does_not_shadow_class_body_names(prop_name, field_mappings):
+    return field_mappings[prop_name] not in ("date", "datetime", "time", "timedelta", "field")
+
+
+# (loop numbering follows the source order of the function: the field loop is loop 0, the suffix-probing loop inside it is loop 1)
+@c.invariant(1)
+def field_probe_inv(field_name, base_field_name):
+    """suffix-probing loop: the candidate is the base name, or the base name with `_<n>` appended (it contains an underscore)"""
+    return field_name == base_field_name or "_" in field_name
